@@ -93,10 +93,23 @@ def replay_one(beh, kinds, sandbox, variant):
     if files["user"]:
         with open(os.path.join(userdir, "config.yaml"), "w") as fh:
             yaml.safe_dump(files["user"], fh)
-    argv = ["-s", spath] + argv + ["in"]
+    # every second case has another directory earlier on the command line, documented for real: the Settings object
+    # handed over for "in" must still be what the sources say (nothing the first input did to it may show)
+    two = variant == 1
+    if two:
+        os.makedirs(os.path.join(work, "first"))
+        with open(os.path.join(work, "first", "f.cmake"), "w") as fh:
+            fh.write("function(f)\nendfunction()\n")
+    argv = ["-s", spath] + argv + (["first"] if two else []) + ["in"]
     captured = []
     real = cminx.document
-    cminx.document = lambda f, s: captured.append(s)
+    import copy as _copy
+
+    def spy(f, s):
+        captured.append(_copy.deepcopy(s))
+        if two and os.path.basename(os.path.normpath(f)) == "first":
+            real(f, s)
+    cminx.document = spy
     try:
         exc, _ = naming.run_main(argv, work, home)
     finally:
@@ -106,7 +119,7 @@ def replay_one(beh, kinds, sandbox, variant):
         return {"rejected": True}, {"rejected": exc is not None and "Config" in exc, "exc": exc}, argv, files
     if exc or not captured:
         return {"rejected": False}, {"rejected": True, "exc": exc}, argv, files
-    s = captured[0]
+    s = captured[-1]
     obs = {}
     for opt, src in beh["ideal"].items():
         sec, key = opt.split(".")
